@@ -6,7 +6,6 @@ import numpy as np
 
 from common import R, Ro, fl
 
-from common import wiring_pre_build as pre_build  # noqa: E402,F401  (regenerates Generated/Wiring.lean from the tested tree)
 
 LEAN_MODULES = ["PyomaVerif.Props.C20", "PyomaVerif.Props.C20Extract", "PyomaVerif.Mutants.C20", "PyomaVerif.Props.WiringPlot", "PyomaVerif.Props.WiringClass", "PyomaVerif.Props.C20Stored"]
 THEOREMS = [
